@@ -53,6 +53,13 @@ def make_cases(rng, tier, n):
                 if not (upstream(edges, [i]) & dirty):
                     ops.append(("commit", rng.choice("lc"), [names[i]]))        # commits exactly what was just regenerated
                     hist.append("partial-run-partial-commit")
+                    if dirty and rng.random() < 0.6:
+                        # one invocation that visits the freshly committed stage FIRST and the stale ones after it
+                        tg = [i] + sorted(dirty)
+                        ops.append(("run", False, [names[t] for t in tg]))
+                        sc = upstream(edges, tg)
+                        reran = dirty & sc
+                        dirty = (dirty - sc) | (downstream(edges, reran | (sc & downstream(edges, reran))) - sc)
                 continue
             if ev == "edit_src" and srcs:
                 i = rng.choice(list(srcs))
